@@ -1218,8 +1218,10 @@ def _open(eng, args, kw, node):
     """open(path, mode): may fail with OSError; the ghost call record keeps (path, mode)"""
     eng.used_assumptions.add("E-os")
     path = args[0]
-    mode = args[1] if len(args) > 1 else Conc("r")
-    eng.st.calls.append(("open", {"path": path, "mode": mode}))
+    mode = args[1] if len(args) > 1 else kw.get("mode", Conc("r"))
+    # any further option (buffering, encoding, errors, newline ...) changes what is read or written: recorded
+    options = sorted(k for k in kw if k != "mode") + ["positional#%d" % i for i in range(2, len(args))]
+    eng.st.calls.append(("open", {"path": path, "mode": mode, "options": Conc(tuple(options))}))
     if eng.decide(z3.Bool(eng.fresh_name("open.fails"))):
         raise RaiseSig("OSError")
     if isinstance(mode, Conc) and "w" in mode.v:
